@@ -38,6 +38,19 @@ def _cfg(name, text):
     return p
 
 
+def _build(binname):
+    """cargo build; the workspace is shared with other families, whose half-written crates can
+    break a build transiently -- retry before giving up."""
+    import time
+    for attempt in range(3):
+        try:
+            return vlib.cargo_build("hv_std", bins=[binname], features=["runner"], workspace="harness_hydro")
+        except vlib.ToolError:
+            if attempt == 2:
+                raise
+            time.sleep(20)
+
+
 def _run_harness(exe, args):
     p = vlib.run_bin(exe, args, cwd=CRATE, env={"CARGO_MANIFEST_DIR": CRATE}, timeout=3000)
     if p.returncode != 0:
@@ -80,16 +93,43 @@ def _report(res, trace, viol, what):
     return cases
 
 
-def _canary(res, trace, mutate, label):
-    evs = vlib.read_ndjson(trace)
-    if not mutate(evs):
-        raise vlib.ToolError("canary %s: no place to corrupt" % label)
-    ctrace = trace.replace(".ndjson", "_canary_%s.ndjson" % re.sub(r"\W", "_", label))
-    vlib.write_ndjson(ctrace, evs)
+def _head(evs, ncases):
+    """the first ncases whole cases of a trace, plus eof"""
+    out, n = [], 0
+    for e in evs:
+        if e.get("e") == "reset":
+            n += 1
+            if n > ncases:
+                break
+        if e.get("e") != "eof":
+            out.append(json.loads(json.dumps(e)))       # deep copy
+    return out + [{"e": "eof"}]
+
+
+def _canaries(res, muts):
+    """Each (trace, mutate, label) corrupts its own copy of a short prefix of a good recorded
+    trace; the copies are concatenated (case ids offset by 100000 * i) and validated in ONE TLC
+    run; every copy must be flagged, else the binding is vacuous (ToolError)."""
+    allevs, ctrace = [], None
+    for i, (trace, mutate, label) in enumerate(muts):
+        full = vlib.read_ndjson(trace)
+        ctrace = ctrace or trace.replace(".ndjson", "_canaries.ndjson")
+        evs = _head(full, 80)
+        if not mutate(evs):
+            evs = json.loads(json.dumps(full))
+            if not mutate(evs):
+                raise vlib.ToolError("canary %s: no place to corrupt in %s" % (label, trace))
+        for e in evs:
+            if e.get("e") == "reset":
+                e["case"] += 100000 * (i + 1)
+        allevs += [e for e in evs if e.get("e") != "eof"]
+    vlib.write_ndjson(ctrace, allevs + [{"e": "eof"}])
     cviol = _validate(ctrace, None, "canary")
-    if not cviol:
-        raise vlib.ToolError("canary (%s) was NOT rejected by NetTrace" % label)
-    res.extra.setdefault("canaries", []).append("%s -> %s" % (label, sorted({v[1] for v in cviol})[:3]))
+    for i, (_, _, label) in enumerate(muts):
+        hit = sorted({v[1] for v in cviol if v[0] // 100000 == i + 1})
+        if not hit:
+            raise vlib.ToolError("canary (%s) was NOT rejected by NetTrace" % label)
+        res.extra.setdefault("canaries", []).append("%s -> %s" % (label, hit[:3]))
 
 
 def _flip_payload(evs):
@@ -158,7 +198,7 @@ def _count(res, cases):
 def run(tier):
     res = vlib.PropResult("C35")
     thorough = tier == "thorough"
-    bindir = vlib.cargo_build("hv_std", bins=["hv_net"], features=["runner"], workspace="harness_hydro")
+    bindir = _build("hv_net")
     exe = os.path.join(bindir, "hv_net")
     d = vlib.rundir("net")
 
@@ -214,12 +254,14 @@ def run(tier):
         res.samples.append({"kind": "member id round trip", **rts[0]})
 
     # (4) canaries
-    _canary(res, rtrace, _flip_payload, "one character of a delivered string changed")
-    _canary(res, rtrace, _flip_int, "lowest bit of a delivered u64 flipped")
-    _canary(res, rtrace, _wrong_member, "delivered at another member")
-    _canary(res, rtrace, _wrong_sender, "delivered with another sender id")
-    _canary(res, rtrace, _drop_delivery, "delivery dropped")
-    _canary(res, rtrace, _rt_changed, "round-tripped member id changed")
+    _canaries(res, [
+        (rtrace, _flip_payload, "one character of a delivered string changed"),
+        (rtrace, _flip_int, "lowest bit of a delivered u64 flipped"),
+        (rtrace, _wrong_member, "delivered at another member"),
+        (rtrace, _wrong_sender, "delivered with another sender id"),
+        (rtrace, _drop_delivery, "delivery dropped"),
+        (rtrace, _rt_changed, "round-tripped member id changed"),
+    ])
 
     res.rule = ("case = one round (routing script x random payloads) or the member-id round-trip batch; "
                 "evaluations = messages sent + ids round-tripped; non-trivial = delivered payload with an "
